@@ -646,6 +646,9 @@ func dhcpJobs(tier string) []Job {
 		for _, variant := range []int64{2, 3, 4} {
 			jobs = append(jobs, Job{Pkg: "handlers/dhcp4_spoofer", Func: "VerifC11Step", Args: []int64{2, variant, 1}, SplitN: 24, Cfg: c, Reach: r})
 		}
+		// one pre-existing lease (possibly another client's): plain DISCOVER in primary mode - the free-address search
+		// meets an address that is taken
+		jobs = append(jobs, Job{Pkg: "handlers/dhcp4_spoofer", Func: "VerifC11Step", Args: []int64{1, 1, 1}, SplitN: 24, Cfg: c, Reach: r})
 	}
 	// other home / netfilter prefix configurations (verifNetConfig 1, 2)
 	for _, ncfg := range []int64{1, 2} {
